@@ -609,6 +609,28 @@ impl Session {
         self.flush_dispatch();
     }
 
+    /// FIFO run to quiescence of everything except event dispatch: the generated messages stay
+    /// undelivered until `release_dispatch`
+    pub fn drain_holding_dispatch(&mut self) {
+        self.explicit_dispatch = true;
+        for _ in 0..2000 {
+            let acts = self.enabled();
+            match acts.iter().find(|a| !matches!(a.kind, Kind::Dispatch(_))) {
+                Some(a) => {
+                    let seq = a.seq;
+                    self.run(seq);
+                }
+                None => break,
+            }
+        }
+    }
+
+    /// deliver what `drain_holding_dispatch` held back, in generation order
+    pub fn release_dispatch(&mut self) {
+        self.explicit_dispatch = false;
+        self.flush_dispatch();
+    }
+
     /// FIFO run to quiescence
     pub fn drain(&mut self) -> usize {
         let mut n = 0;
